@@ -9,6 +9,9 @@ CLAIMS = {
  "C01": ("SSA edge-dominance of every secrets-state access by a successful permission check (same caller, documented action, same name); path-enumerated nil-return summary of the check helper; identity value-flow in the server",
          "Structural necessary condition, decided for all inputs and paths: no db.DB operation can read or change the secrets state, and List cannot emit an entry, except on control-flow edges where the permission check for the documented action succeeded for that caller and that name; the check helper cannot return nil unless Allow was true; the server passes the WhoIs identity through unchanged. Does not decide what Allow answers on strings (C07) nor behaviour on concrete databases.",
          "go/types+go/ssa of x/tools v0.50.0; multierr.New/errors.Join nil iff all elements nil; sentinel errors non-nil; docs/api.md is the oracle for the action table", "4/C01"),
+ "C06": ("SSA edge-dominance of every mutation and every value return by the nil edge of the audit-writing permission helper; path-enumerated fail-closed summary of the helper; must-pass-through (record on every path, refusal branches, nothing on the not-modified path); value identity of the record's fields; error discipline and sink wiring of audit.Writer; constant open flags",
+         "Structural necessary conditions, decided on all paths: no mutation takes effect and no secret value is returned except after the audit-writing helper returned nil for that caller/action/name; the helper writes a record on every path (also when denying) and cannot return nil if the write failed; the unchanged conditional get writes nothing; the record's fields are the request's; the Writer returns every Encode error, reports success only through Sync of the very sink it encodes to, unbuffered; the audit file is O_APPEND, never truncated, owner-only. Does not decide interleaving of concurrent appends on a real file.",
+         "json.Encoder.Encode = one Write per record; O_APPEND atomic per write(2); multierr.New nil iff all nil", "4/C06"),
  "C03": ("typestate on SSA CFG paths (mutation => save => tested error before any return), value-flow of the bytes handed to the file writer, edge-dominance on the open path, JSON wire-signature computed from go/types against the frozen v1 signature, reader/writer sibling agreement",
          "Structural necessary conditions, decided on all paths: no mutator of the persistent state can return without having called the file-writing save and tested its error; what is saved is the live map, wrapped as documented; opening writes only when the file does not exist; the v1 wire layout (keys, encodings, AEAD contexts, key template, schema constant) is unchanged and reader and writer agree. Does not decide state equality after arbitrary histories nor decoding of real old files.",
          "encoding/json encodes according to the computed shape; tink keyset reader/writer are inverse; the v1 layout is the one documented on db.kv", "4/C03"),
